@@ -326,10 +326,11 @@ macro_rules! impl_cache {
                 // to prevent items from being prematurely removed from the map.
                 let external_cost = if cost == 0 { self.coster.cost(&val) } else { 0 };
                 match self.store.try_update(index, val, conflict, expiration)? {
-                    // The validator vetoed the replacement: the resident entry keeps its value,
-                    // its expiration and its charged cost, so nothing is sent to the policy.
-                    UpdateResult::Reject(_) => Ok(None),
-                    UpdateResult::NotExist(v) | UpdateResult::Conflict(v) => {
+                    // The validator vetoed the replacement, or the slot belongs to a colliding key
+                    // (same index, other conflict): the resident entry keeps its value, its
+                    // expiration and its charged cost, so nothing is sent to the policy.
+                    UpdateResult::Reject(_) | UpdateResult::Conflict(_) => Ok(None),
+                    UpdateResult::NotExist(v) => {
                         if only_update {
                             Ok(None)
                         } else {
@@ -643,10 +644,11 @@ macro_rules! impl_async_cache {
                 // to prevent items from being prematurely removed from the map.
                 let external_cost = if cost == 0 { self.coster.cost(&val) } else { 0 };
                 match self.store.try_update(index, val, conflict, expiration)? {
-                    // The validator vetoed the replacement: the resident entry keeps its value,
-                    // its expiration and its charged cost, so nothing is sent to the policy.
-                    UpdateResult::Reject(_) => Ok(None),
-                    UpdateResult::NotExist(v) | UpdateResult::Conflict(v) => {
+                    // The validator vetoed the replacement, or the slot belongs to a colliding key
+                    // (same index, other conflict): the resident entry keeps its value, its
+                    // expiration and its charged cost, so nothing is sent to the policy.
+                    UpdateResult::Reject(_) | UpdateResult::Conflict(_) => Ok(None),
+                    UpdateResult::NotExist(v) => {
                         if only_update {
                             Ok(None)
                         } else {
